@@ -52,7 +52,9 @@ ResolveSend(ep, r) ==
      pay |-> r.pay, text |-> FALSE]
 Resolve(ep, rev) ==
     CASE rev.t = "frame" -> [t |-> "frame", f |-> ResolveFrame(ep, rev.f), now |-> NOW]
-      [] rev.t = "send" -> [t |-> "send", m |-> ResolveSend(ep, rev.m), up |-> TRUE]
+      \* faildrain: the bytes are handed to the transport, then drain() raises (the loss is noticed by the sender first)
+      [] rev.t = "send" -> [t |-> "send", m |-> ResolveSend(ep, rev.m),
+                            up |-> ~("faildrain" \in DOMAIN rev /\ rev.faildrain)]
       [] OTHER -> rev
 
 RF(kind, rel, pd) == [kind |-> kind, rel |-> rel, pd |-> pd, gf |-> FALSE, nm |-> "rel", nv |-> 0, bm |-> "abs", bv |-> 0,
@@ -95,7 +97,9 @@ RelSends ==
       [RS("SEQRESET", "") EXCEPT !.gf = TRUE],   \* no MsgSeqNum: EncodingError
       [RS("APP", "11=s2") EXCEPT !.pd = TRUE, !.seqm = "rel", !.seqv = -1],
       [RS("APP", "11=s3") EXCEPT !.pd = TRUE] }
-RelEvents == { FrameEv(f) : f \in RelFrames } \cup { SendEv(m) : m \in RelSends } \cup { [t |-> "eof"], [t |-> "attach"] }
+FailDrainSends == { SendEv(m) @@ [faildrain |-> TRUE] : m \in { RS("APP", "11=s4"), RS("HB", ""), RS("LOGOUT", "") } }
+RelEvents == { FrameEv(f) : f \in RelFrames } \cup { SendEv(m) : m \in RelSends } \cup FailDrainSends
+             \cup { [t |-> "eof"], [t |-> "attach"] }
 
 \* ---- preambles (initial histories) ----
 LogonIn == FrameEv(RF("LOGON", 0, FALSE))
